@@ -31,7 +31,12 @@ participants and keys; instances are built through whatever __init__ results, in
 classes "equal" -- or raises; the class test is identity, other-class operands still get NotImplemented and the
 classes are never asked), `hashes` per field (what hash() does on each operand's value: unhashable / by identity / a number shared with other
 values, as 1, True and 1.0 share theirs -- so that nothing can be remembered about a value, or shared between
-values that are equal or hash alike, without showing).  Also observed: the applications of the key functions during
+values that are equal or hash alike, without showing), `vk` per field (what kind of object the field values and the
+key results ARE: a plain object, an instance of an attrs class -- attr.s or slotted define, with comparison methods of
+its own, the two operands' values of one class or of base and subclass, or an attrs instance against a plain object --,
+a list / tuple / dict / set subclass holding attrs instances; always with the scripted comparison methods: a value takes
+part in the order tuple as the object it is, it is never taken apart (astuple-style recursion), copied or rebuilt).
+Also observed: the applications of the key functions during
 each direct call (`keys`): every keyed order field's key is applied to self's value, then to other's, on every call.
 
 Observed: the class-level call's error kind, the fields whose attr.ib() raised ValueError, where each of the
@@ -66,7 +71,9 @@ RULE = ("cases = class-level (api x cmp x eq x order x auto_detect x own orderin
         "x {true,false,raises}^2 per operand), field options that must not matter (block: kw_only/init/alias/repr/hash/metadata/converter/"
         "validator/default singly and mixed x first/second/inherited/all fields x 3 front-ends, fields disagreeing in direction), "
         "hashable values (block memo: key shapes x earlier life none/rekey/rebind/evolve/copy x hash by identity / shared number / "
-        "unhashable), all four as random decoration of every other block; metaclasses whose class ==/!= lies or raises (cfg, 3 of 8 cases; "
+        "unhashable), kind of the value objects (block values: attrs instance of attr.s / slotted define class with its own comparison "
+        "methods, base-vs-subclass and attrs-vs-plain across the operands, list/tuple/dict/set holding attrs instances x 6 key shapes "
+        "x 3 front-ends; harness-only, the model is independent of it), all five as random decoration of every other block; metaclasses whose class ==/!= lies or raises (cfg, 3 of 8 cases; "
         "40% of the operands block); field names permuted; non-trivial = class built, ordering generated, and "
         "(other-class operand or at least one value comparison performed); distinct = distinct JSON case")
 ASSUMPTIONS = [
@@ -75,6 +82,7 @@ ASSUMPTIONS = [
     "CPython's tuple rich comparison (first position neither identical nor ==, operator applied there, else lengths) is modelled as a 6-line function and diff-tested here through scripted, tracing value objects",
     "CPython's rich-comparison dispatch for x<y (reflected method of a proper subclass first, left, reflected, TypeError) is modelled and diff-tested here for the operand kinds same/identical/subclass/superclass/foreign",
     "scripted comparison objects stand for arbitrary values: every comparison outcome is an input of the case; the concrete {0,1,2} / subset / NaN domains are turned into scripts by running Python's own comparisons in the generator, and Lean's wf re-derives the natural-number scripts",
+    "the kind of object a field value is (`vk`: attrs instance, container of attrs instances, ...) is harness-only variation: all kinds carry the same scripted comparison methods, so the model's verdict is independent of it; values that are attrs instances with GENERATED ordering of their own are not used (their comparisons would be attrs's, not the script's)",
     "exception classes (auto_exc) and field redefinition in subclasses are not varied here (C14 / C07)",
 ]
 EXHAUSTIVE = {"quick": False, "thorough": False}
@@ -167,6 +175,69 @@ class V:
 
     def __ge__(self, other):
         return self._do("ge", other)
+
+
+@attr.s(eq=False, init=False)
+class VA(V):
+    """a scripted value that is an instance of an attrs class (with comparison methods of its own: V's)"""
+    p = attr.ib()
+    q = attr.ib(order=False)
+
+    def __init__(self, tag, script):
+        V.__init__(self, tag, script)
+        self.p, self.q = 0, tag
+
+
+@attr.s(eq=False, init=False)
+class VA2(VA):
+    """a subclass of VA: the y-side value of kind `attrsSub` (mixed base/subclass values)"""
+    r = attr.ib(default=1)
+
+    def __init__(self, tag, script):
+        VA.__init__(self, tag, script)
+        self.r = 1
+
+
+@attrs.define(eq=False, init=False)
+class VD(V):
+    """scripted value, instance of a slotted attrs.define class without generated eq/ordering"""
+    p: int
+    q: object
+
+    def __init__(self, tag, script):
+        V.__init__(self, tag, script)
+        self.p, self.q = 0, VA(tag + ":inner", script)
+
+
+class VL(V, list):
+    """scripted value that is a list (holding an attrs instance)"""
+    def __init__(self, tag, script):
+        V.__init__(self, tag, script)
+        list.append(self, VA(tag + ":item", script))
+
+
+class VT(V, tuple):
+    def __new__(cls, tag, script):
+        return tuple.__new__(cls, (0, VA(tag + ":item", script)))
+
+
+class VM(V, dict):
+    def __init__(self, tag, script):
+        V.__init__(self, tag, script)
+        dict.__setitem__(self, "k", VA(tag + ":item", script))
+
+
+class VS(V, set):
+    def __init__(self, tag, script):
+        V.__init__(self, tag, script)
+        set.add(self, 0)
+
+
+# harness-only `vk` of a field: what kind of object the field VALUES (and key results) are -- always with the scripted
+# comparison methods, so that the model does not depend on it: values take part as the objects they are
+VKINDS = {"plain": (V, V), "attrs": (VA, VA), "attrsSub": (VA, VA2), "attrsSuper": (VA2, VA), "define": (VD, VD),
+          "list": (VL, VL), "tuple": (VT, VT), "dict": (VM, VM), "set": (VS, VS), "attrsVsPlain": (VA, V)}
+VKIND_NAMES = [k for k in VKINDS if k != "plain"]
 
 
 KEYLOG: list = []
@@ -564,19 +635,20 @@ def _pair_up(a, b):
 
 def _mk_values(f):
     n = f["name"]
-    X = V(n, f["raw"]["s"])
-    X.ek = V(n + ":ek", f["ek"]["s"])
-    X.ok = V(n + ":ok", f["ok"]["s"])
-    X.ck = V(n + ":ck", f["ok"]["s"])
+    VX, VY = VKINDS[f.get("vk") or "plain"]
+    X = VX(n, f["raw"]["s"])
+    X.ek = VX(n + ":ek", f["ek"]["s"])
+    X.ok = VX(n + ":ok", f["ok"]["s"])
+    X.ck = VX(n + ":ck", f["ok"]["s"])
     if f["raw"]["same"]:
         return X, X
-    Y = V(n, _mirror(f["raw"]["s"]))
+    Y = VY(n, _mirror(f["raw"]["s"]))
     _pair_up(X, Y)
     for view, pk in (("ek", "ek"), ("ok", "ok"), ("ck", "ok")):
         if f[pk]["same"]:
             setattr(Y, view, getattr(X, view))
         else:
-            ky = V(n + ":" + view, _mirror(f[pk]["s"]))
+            ky = VY(n + ":" + view, _mirror(f[pk]["s"]))
             _pair_up(getattr(X, view), ky)
             setattr(Y, view, ky)
     hashes = f.get("hashes")
@@ -851,6 +923,7 @@ def dist(case, obs):
         "op_le": (o.get("ops") or {}).get("le"),
         "trace_len_lt": len((o.get("trace") or {}).get("lt", [])),
         "nat": sum(1 for f in case["fields"] if f.get("nat")),
+        "value_kind": "+".join(sorted({f.get("vk") or "plain" for f in case["fields"]})),
     }
 
 
@@ -1038,7 +1111,7 @@ def _rand_truth(rng):
     return {side: {k: rng.choice(TRUTHS) for k in ("raw", "ek", "ok")} for side in ("x", "y")}
 
 
-def _decorate(rng, c, p_truth=0.35, p_pre=0.3, p_redef=0.3, p_opts=0.3, p_hash=0.4):
+def _decorate(rng, c, p_truth=0.35, p_pre=0.3, p_redef=0.3, p_opts=0.3, p_hash=0.4, p_vk=0.3):
     """harness-only dimensions of a case: truthiness of values / key results, earlier comparisons in the class
     family, base-class definitions that C overrides"""
     fs = []
@@ -1047,6 +1120,7 @@ def _decorate(rng, c, p_truth=0.35, p_pre=0.3, p_redef=0.3, p_opts=0.3, p_hash=0
         f["truth"] = _rand_truth(rng) if rng.random() < p_truth else None
         f["opts"] = _rand_opts(rng) if rng.random() < p_opts else None
         f["hashes"] = _rand_hashes(rng) if rng.random() < p_hash else None
+        f["vk"] = rng.choice(VKIND_NAMES) if rng.random() < p_vk else None
         f["redef"] = None
         if not f["inBase"] and rng.random() < p_redef:
             r = rng.choice(REDEFS)
@@ -1358,7 +1432,29 @@ def _gen_truth(tier, rng):
                     yield c
 
 
+def _gen_values(tier, rng):
+    """what the field values ARE: instances of attrs classes (with comparison methods of their own, base/subclass
+    mixed across the operands, slotted define classes), lists / tuples / dicts / sets (holding attrs instances) --
+    they take part in the order tuple as the objects they are (never taken apart, copied or rebuilt)"""
+    reps = 1 if tier == "quick" else 8
+    shapes = [{}, {"order": "key"}, {"eq": "key"}, {"cmp": "key"}, {"inBase": True}, {"order": "f"}]
+    for vk in VKIND_NAMES:
+        for sh in shapes:
+            for cls in (("attrS", "unset", "unset", "unset"), ("define", "unset", "unset", "t"), ("makeClass", "unset", "unset", "t")):
+                for _ in range(reps):
+                    k = rng.choice([1, 2, 2, 3])
+                    j = rng.randrange(k)
+                    fields = [_plain_field(rng, NAMES[i], eq_bias=0.3 if i == j else 0.8, **(sh if i == j else {})) for i in range(k)]
+                    c = _case(rng, fields, rhs=rng.choice(["same", "same", "same", "identical", "sub"]), cls=cls, block="values")
+                    _decorate(rng, c, p_truth=0.1, p_pre=0.1, p_redef=0.1, p_opts=0.1, p_hash=0.2, p_vk=0.3)
+                    c["fields"][j]["vk"] = vk
+                    if rng.random() < 0.25:
+                        c["hist"] = _rand_hist(rng, c["fields"])
+                    yield c
+
+
 def gen_cases(tier, rng):
+    yield from _gen_values(tier, rng)
     yield from _gen_class_table(tier, rng)
     yield from _gen_field_table(tier, rng)
     yield from _gen_positions(tier, rng)
@@ -1391,7 +1487,7 @@ def shrink(case):
         for i in range(len(case["pre"])):
             yield dict(case, pre=case["pre"][:i] + case["pre"][i + 1:])
     for i, f in enumerate(fs):
-        for k in ("truth", "redef", "opts", "hashes"):
+        for k in ("truth", "redef", "opts", "hashes", "vk"):
             if f.get(k):
                 yield dict(case, fields=fs[:i] + [dict(f, **{k: None})] + fs[i + 1:])
     h = case.get("hist")
@@ -1451,6 +1547,8 @@ def neighbours(case, rng):
     for opt in OPT_SINGLES:
         for i, f in enumerate(fs):
             yield dict(case, fields=fs[:i] + [dict(f, opts=dict(opt))] + fs[i + 1:], rhs="same")
+    for vk in VKIND_NAMES:
+        yield dict(case, fields=[dict(f, vk=vk) for f in fs], rhs="same")
     for i, f in enumerate(fs):
         for _ in range(4):
             g = dict(f, raw=_rand_pair(rng), ek=_rand_pair(rng), ok=_rand_pair(rng), nat=None)
@@ -1482,7 +1580,8 @@ LEVEL_TEXT = (
     "before with other values, then key results / fields changed behind them or via assoc/evolve/copy; nothing may be left on the "
     "instances or classes), class-family histories (ancestor/sibling/subclass compared first; overriding redefinitions), and "
     "falsy / bool()-raising key results, per-field options unrelated to ordering (kw_only, init, alias, repr, hash, metadata, "
-    "converter, validator, default; own and inherited fields), scripted hashability of values (identity / colliding / none) "
+    "converter, validator, default; own and inherited fields), values that are attrs instances / containers of attrs instances "
+    "(taken as the objects they are, through their own comparison methods), scripted hashability of values (identity / colliding / none) "
     "and the key-function applications per call (C09_keys_every_comparison: every keyed order field's key, both operands, every "
     "call, no memory). CPython's tuple comparison and "
     "rich-comparison dispatch are modelled as small functions and observed, not proved; values' reflected comparisons are assumed "
